@@ -185,7 +185,7 @@ def text_stream(rng, n_valid, n_malformed):
     while len(valid) < n_valid:
         if len(valid) % 4 == 3:
             # the structured families of the LR pools as well (every stage sees them: C07, C14 …)
-            g = rng.choice([gen.context_grammar, gen.wave_grammar, gen.sequence_grammar, gen.nesting_grammar, gen.layered_grammar, gen.dispatch_grammar])(rng, derive=rng.random() < 0.5)
+            g = rng.choice([gen.context_grammar, gen.wave_grammar, gen.sequence_grammar, gen.nesting_grammar, gen.layered_grammar, gen.dispatch_grammar, gen.nullable_tail_grammar])(rng, derive=rng.random() < 0.5)
             valid.append(gen.render(g, rng if rng.random() < 0.5 else None))
             continue
         g = gen.random_grammar(rng, names=rng.choice(["plain", "adversarial"]), payload="mixed", derive=rng.random() < 0.5)
@@ -555,6 +555,10 @@ def grammar_pool(rng, n_random, usize=True, names="plain", max_nt=4, max_t=4, ma
         if k % 4 == 1:
             items = gen.layered_grammar(rng)
             out.append((f"layered{k}", items, gen.render(items), gen.to_oracle(items)))
+            continue
+        if k % 16 == 14:
+            items = gen.nullable_tail_grammar(rng)
+            out.append((f"nulltail{k}", items, gen.render(items), gen.to_oracle(items)))
             continue
         if k % 16 == 12:
             items = gen.dispatch_grammar(rng)
